@@ -53,6 +53,9 @@ LEAVES = [
     dict(p="LInfProj", eps=0.5), dict(p="LInfProj", eps=1.0, bias=True),
     dict(p="L1Proj", eps=1.0), dict(p="L1Proj", eps=0.5),
     dict(p="Box", lo=-0.5, hi=1.0), dict(p="Box", arr=True),
+    dict(p="Box", lo=0.0, hi=float("inf")),        # non-negativity
+    dict(p="Box", lo=-float("inf"), hi=0.5),       # one-sided from above
+    dict(p="Box", lo=0.0, hi=1e12),                # an asymmetric box whose far bound is never active
 ]
 
 
@@ -112,6 +115,15 @@ def gen_cases(tier, seed):
     for prog in programs(1):
         for sh in ([2], [2, 1]):
             cases.append(dict(kind="alpha-hist", prog=prog, shape=sh))
+    # ... and at the edge of the floating-point range, for the operators whose definition involves no squares (a product
+    # like eps*|x| formed before a division overflows at 1e155 although the result is representable)
+    for prog in LEAVES:
+        if prog["p"] in ("L1Reg", "LInfProj", "L1Proj", "Box"):
+            for c in (1e155, 1e-155, 1e300):
+                for dt in ("f64", "c128"):
+                    if prog["p"] == "Box" and dt.startswith("c"):
+                        continue
+                    cases.append(dict(kind="prox-scale", prog=prog, c=c, dtype=dt))
     for n in (2, 3):
         for alpha in (0.5, 2.0):
             cases.append(dict(kind="psd", n=n, alpha=alpha))
@@ -335,7 +347,7 @@ def run_case(case, seed):
                                      detail="input shape %s, output shape %s (y=%s)" % (sh, list(np.asarray(x).shape), list(pt))))
                 continue
             v = (y0 - x) / alpha
-            d = Gc.defect(np.asarray(x), v)
+            d = Gc.defect(np.asarray(x), v) if np.all(np.isfinite(np.asarray(x))) else float("inf")
             if not d <= TOL:
                 if ("cert", site) not in seen:
                     seen.add(("cert", site))
